@@ -246,6 +246,7 @@ func Run(c Case, h Hooks) Result {
 	var clients []*scen.Client
 	defer func() {
 		cl.OpenAll()
+		cl.Fab.UnblockAll()
 		for _, client := range clients {
 			for _, call := range client.Calls() {
 				call.Cancel()
@@ -351,6 +352,10 @@ func Run(c Case, h Hooks) Result {
 						_, _ = node.RPCCall(uctx, gorums.CallData{Message: &dummy.Empty{}, Method: "dummy.Dummy.Test"})
 					}()
 					time.Sleep(300 * time.Microsecond)
+				case op.Kind == "blockdial":
+					// the server's address stops answering connection attempts (they hang) from now on
+					cl.Fab.Block(scen.Addr(op.Call.Node % c.N))
+					cl.Log.Add(scen.Event{Kind: "blockdial", Call: -1, Server: op.Call.Node % c.N})
 				case op.Kind == "cut":
 					// the connections to a server break underneath it (it keeps listening)
 					cl.Cut(op.Call.Node % c.N)
